@@ -38,8 +38,9 @@ def judge(cls, word, what=""):
     from Bio.Seq import Seq
     from moclo.record import CircularRecord
     ent = cls(CircularRecord(Seq(word), id="x"))
-    if not sut(ent.is_valid):
-        return None
+    first = sut(ent.is_valid)
+    if not first and not sut(ent.is_valid):
+        return None           # rejected, also when asked again on the same wrapper
     g = dna.geometry(cls.cutter)
     n = len(word)
     os_ = str(sut(ent.overhang_start))
